@@ -308,7 +308,9 @@ func (e *Engine) verifyFunction(key string) (u *Unit, err error) {
 				err = fmt.Errorf("%s: %s", key, se.msg)
 				return
 			}
-			panic(r)
+			// a construct the engine cannot handle: the function's obligations are not generated
+			// (reported like a contract that does not bind, never as "held")
+			err = fmt.Errorf("%s: the verifier could not encode this function (%v)", key, r)
 		}
 	}()
 	if ct != nil && ct.NoSafety {
@@ -469,6 +471,7 @@ func (e *Engine) verifyFunction(key string) (u *Unit, err error) {
 			continue
 		}
 		parts := splitConj(en.Expr)
+		var proved []string
 		for _, part := range parts {
 			g := penv.evalBool(part)
 			txt := en.Text
@@ -479,6 +482,11 @@ func (e *Engine) verifyFunction(key string) (u *Unit, err error) {
 			ob := u.oblig("post", txt, implies(res.reach, g), en.Props)
 			u.curReveal = nil
 			ob.Pos = en.Where
+			if u.sequential() {
+				// the conjuncts of one ensures clause are proved in order: each may use the earlier ones
+				ob.Extra = append(ob.Extra, proved...)
+				proved = append(proved, "(assert "+implies(res.reach, g)+")")
+			}
 		}
 	}
 	// every argument-flow clause must have found its call site
